@@ -87,7 +87,9 @@ def rule_routing(run, F, cfg):
         if not d:
             fail("total", v, d, "a live rule is stored in no list (lost)")
         plain = not (v["is_csp"] or v["is_removeparam"] or v["is_generic_hide"] or v["is_exception"])
-        if plain and v["is_important"] and "importants" not in d:
+        # (an `$important,redirect-rule=` rule is not a blocking rule: it only supplies a replacement)
+        blocks = not v["is_redirect"] or v["also_block_redirect"]
+        if plain and v["is_important"] and blocks and "importants" not in d:
             fail("important=>importants", v, d, "an $important blocking rule is not in `importants`")
         if plain and not v["is_important"] and not v["is_redirect"]:
             want = {"tagged_filters_all"} if v["tag"] else {"filters"}
@@ -101,9 +103,8 @@ def rule_routing(run, F, cfg):
             fail("generichide=>generic_hide", v, d, "a generichide rule must be stored in `generic_hide` only")
         if v["is_redirect"] and "redirects" not in d:
             fail("redirect=>redirects", v, d, "a redirect rule is not in `redirects`")
-        if plain and v["is_redirect"] and not v["also_block_redirect"] and not v["is_important"] \
-                and (d & BLOCKING):
-            fail("redirect-rule=>not-blocking", v, d, "`redirect-rule` alone is stored in a blocking list")
+        if plain and v["is_redirect"] and not v["also_block_redirect"] and (d & BLOCKING):
+            fail("redirect-rule=>not-blocking", v, d, "`redirect-rule` (with or without $important) is stored in a blocking list")
         if plain and v["is_redirect"] and v["also_block_redirect"] and not v["is_important"] \
                 and not (d & BLOCKING):
             fail("redirect=>also-blocks", v, d, "`redirect=` must also be stored in a blocking list")
